@@ -122,7 +122,48 @@ func c10CheckInto(c c10Cfg, evs []ref.Event, ds []c10Delivery, eager bool, add f
 		sort.Slice(ts, func(i, j int) bool { return ts[i] < ts[j] })
 		for i := 1; i < len(ts); i++ {
 			if ts[i]-ts[i-1] > c.Timeout {
-				add("gap-not-split", fmt.Sprintf("session of key %s reports rows %v with consecutive timestamps %d and %d further apart than the timeout %d", d.Key, d.IDs, ts[i-1], ts[i], c.Timeout))
+				kind := "gap-not-split"
+				if eager {
+					// slow feed: when the later row arrived, had the watermark over the earlier arrivals already
+					// reached the end of the session as it stood then? Then the expiry goroutine had closed it
+					// (it ran to quiescence after every Emit) and the row cannot have extended it - this is not
+					// the known "Add extends the open session" behaviour.
+					arr := map[int]int{}
+					for ai, e := range evs {
+						arr[e.ID] = ai
+					}
+					lateIdx, lateTS := -1, int64(0)
+					for _, id := range d.IDs {
+						if e := byID[id]; e.TS == ts[i] && (lateIdx < 0 || arr[id] < lateIdx) {
+							lateIdx, lateTS = arr[id], e.TS
+						}
+					}
+					inOrder := lateIdx >= 0
+					earlier := 0
+					var endBefore int64 = -1 << 62
+					for _, id := range d.IDs {
+						e := byID[id]
+						if id == evs[lateIdx].ID {
+							continue
+						}
+						// only the plain in-order case is classified: every row below the gap arrived before
+						// the row above it, and nothing above the gap had arrived yet
+						if (e.TS < lateTS) != (arr[id] < lateIdx) {
+							inOrder = false
+						}
+						if e.TS >= lateTS {
+							continue
+						}
+						earlier++
+						if e.TS+c.Timeout > endBefore {
+							endBefore = e.TS + c.Timeout
+						}
+					}
+					if inOrder && earlier > 0 && ref.FinalWatermark(evs[:lateIdx], c.OOOMs) >= endBefore {
+						kind = "gap-not-split-after-session-expired"
+					}
+				}
+				add(kind, fmt.Sprintf("session of key %s reports rows %v with consecutive timestamps %d and %d further apart than the timeout %d", d.Key, d.IDs, ts[i-1], ts[i], c.Timeout))
 			}
 		}
 		if d.WS != ts[0] {
